@@ -66,20 +66,22 @@ CHECKS = {
 
 # families added after the seeded-change rounds (DESIGN 10.4); appended to the technique text
 EXTRA = {
- "C01": "every run starts from a non-initial reader state (130 rejected loads on every thread); sequences of <= 4/5 saves and edits on one Document value; the two double-rounding hard reals",
- "C02": "every file also through load_from (short reads), IncrementalDocument loaders and the path-taking loaders incl. load_filtered (entry-point agreement); a 300-object document whose compressed object stream exceeds 32 KiB; 3- and 4-revision documents",
- "C03": "Document::save(path) over fresh and existing longer files; incremental chains on a base file written by the reference writer; same-Document resave sequences; 2^16 / 2^24 offset-width boundary files",
- "C04": "18 encrypted seeds whose empty user password authenticates (decryption on load); every mutant of a classic-table file also in a structure-aware form with repaired cross-reference offsets; degenerate CMaps; rayon default worker stacks",
- "C05": "transition 'encrypt with the kept state'; nesting ladders with a string at every depth to 127 (loadable) / 1100 (in memory); 8 shapes of the trailer ID; 16 Crypt-parameter shapes (array form, absent)",
- "C06": "direction K (kept state re-encoded and re-encrypted, every field compared with the first protection); ID shapes, nesting ladders, Crypt-parameter array forms; boundary salts of Algorithm 2.B; passwords straddling byte 127",
- "C07": "entry-point agreement on every history file; producer L (front-placed cross-reference section); member-order variants; 7 kinds of white space after the final %%EOF; histories of 127..130 (300) appended revisions",
- "C08": "history-independence part (hostile preludes); split-independence family (pools of 1..16 threads and the sequential build must agree on 644 classic-table files with a trouble pair at every position); misnumbered-slot files (free-running, labelled sampling)",
- "C09": "Flate size families in both directions (ratios beyond 1024:1, plain and encoded lengths around 2^12..2^23, incompressible data, every zlib header); written-size oracle on every compress transition",
- "C10": "deep-nesting family (references below 1..2000 container levels), history family (earlier renumber / delete / add / save / stale max_id), many-object graphs",
- "C12": "history pairs and single edits through the public fields between two enumerations, mutating-method steps, reference chains of 0..128 hops on every link, wide trees",
+ "C01": "every run starts from a non-initial reader state (130 rejected loads on every thread); sequences of <= 4/5 saves and edits on one Document value; the two double-rounding hard reals; more version strings",
+ "C02": "every file also through load_from (short reads), IncrementalDocument loaders and the path-taking loaders incl. load_filtered (entry-point agreement); a 300-object document whose compressed object stream exceeds 32 KiB; 3- and 4-revision documents; object streams ending with their last token, keyword-last documents, a plain-storage 300-object document",
+ "C03": "Document::save(path) over fresh and existing longer files; incremental chains on a base file written by the reference writer; same-Document resave sequences; 2^16 / 2^24 offset-width boundary files; full save of every loaded multi-revision file",
+ "C04": "18 encrypted seeds whose empty user password authenticates (decryption on load); every mutant of a classic-table file also in a structure-aware form with repaired cross-reference offsets; degenerate CMaps; rayon default worker stacks; ends of u64/u32 among the integer extremes; language-escape text strings",
+ "C05": "transition 'encrypt with the kept state'; nesting ladders with a string at every depth to 127 (loadable) / 1100 (in memory); 8 shapes of the trailer ID; 16 Crypt-parameter shapes (array form, absent); CF with more filters than StmF/StrF name x per-stream overrides; 34 special-looking key names x string formats; long non-Latin passwords through authenticate_*",
+ "C06": "direction K (kept state re-encoded and re-encrypted, every field compared with the first protection); ID shapes, nesting ladders, Crypt-parameter array forms; boundary salts of Algorithm 2.B; passwords straddling byte 127; extra crypt filters and the CF name map in all directions; key names and signature dictionaries",
+ "C07": "entry-point agreement on every history file; producer L (front-placed cross-reference section); member-order variants; 7 kinds of white space after the final %%EOF; histories of 127..130 (300) appended revisions; 15 cross-reference spelling classes switched for all revisions; null replacements",
+ "C08": "history-independence part (hostile preludes); split-independence family (pools of 1..16 threads and the sequential build must agree on 644 classic-table files with a trouble pair at every position); misnumbered-slot files (free-running, labelled sampling); late containers (indirect container lengths) under all deferred-list orders; RC4-encrypted duplicate-container files on pools of 1..16 threads",
+ "C09": "Flate size families in both directions (ratios beyond 1024:1, plain and encoded lengths around 2^12..2^23, incompressible data, every zlib header); written-size oracle on every compress transition; the empty filter chain",
+ "C10": "deep-nesting family (references below 1..2000 container levels), history family (earlier renumber / delete / add / save / stale max_id), many-object graphs; alias objects and scalars as whole objects (16 features)",
+ "C11": "start document with sparse numbers, dangling and stale-generation references, resource categories behind references, a dictionary holding one reference under two keys; delete_pages with repeated / unsorted numbers",
+ "C13": "long strings around byte 64, reference chains of 126..200 hops, 130-cycles, shared acyclic graphs with 2^64 paths; panics on the unmutated skeleton are verdicts",
+ "C12": "history pairs and single edits through the public fields between two enumerations, mutating-method steps, reference chains of 0..128 hops on every link, wide trees; wrong-generation kids, all enumeration forms, fan-out kid cycles under a CPU budget, indirect Type",
  "C14": "history-independence part (952 hostile preludes x repetitions x thread kinds), nesting x parenthesis grid, long operands",
  "C15": "all 3-sequences over an 80-entry overlap menu and 4-sequences over a sub-menu, array length profiles, mapping-less and BOM-target CMaps",
- "C16": "every string length 0..2100 around an astral character, long byte strings through the tables, fonts with a predefined encoding and a partial ToUnicode, document sequences on one thread",
+ "C16": "every string length 0..2100 around an astral character, long byte strings through the tables, fonts with a predefined encoding and a partial ToUnicode, document sequences on one thread; inheritance family (nearest binding of font names over page trees of depth 1..3)",
  "C19": "bursts of 2..1000 consecutive Interrupted results at every call; save(path) over fresh, shorter and longer existing files",
 }
 def main():
